@@ -794,6 +794,45 @@ def rule_sink_sequential(ctx, rule, fv, who):
               "the output sink is written from inside a closure run by rayon workers: row order would depend "
               "on scheduling" if bad else "no write to the sink found",
               line_of(bad[0]) if bad else fv.fn["sp"])
+    # the bytes written by a flush are THAT batch's text: a string/vector declared outside the flushing closure (or
+    # outside the record loop) that only ever grows would write the earlier batches again
+    stale = None
+    for w in ws:
+        d = w["args"][0] if w.get("args") else None
+        while isinstance(d, dict) and (d.get("k") == "addr" or (d.get("k") in ("mcall", "call") and cname(d).split("::")[-1] in
+                                       ("as_bytes", "as_str", "as_slice", "deref", "as_ref", "borrow"))):
+            d = d["e"] if d.get("k") == "addr" else call_args(d)[0]
+        if not (isinstance(d, dict) and d.get("k") == "local"):
+            continue
+        b = fv.binds.get(d["id"])
+        if b is None or not b.get("mut"):
+            continue                      # an immutable binding is built where it stands
+        wc = fv.enclosing(w, ("closure",))
+        decl = next((x for x in fv.nodes if x.get("k") == "let" and x.get("pat", {}).get("k") == "pbind"
+                     and x["pat"].get("id") == d["id"]), None)
+        dc = fv.enclosing(decl, ("closure",)) if decl is not None else None
+        wl = fv.enclosing(w, ("for", "while", "loop"))
+        dl = fv.enclosing(decl, ("for", "while", "loop")) if decl is not None else None
+        outside = (wc is not None and dc is not wc) or (wc is None and wl is not None and dl is not wl)
+        if not outside:
+            continue
+        scope = wc if wc is not None else wl
+        cleared = any(x.get("k") == "mcall" and cname(x).split("::")[-1] in ("clear", "truncate", "drain") and
+                      _is_local(x.get("recv"), d["id"]) for x in walk(scope)) or any(
+            x.get("k") == "assign" and _is_local(x.get("l"), d["id"]) for x in walk(scope)) or any(
+            x.get("k") == "call" and cname(x).split("::")[-1] in ("take", "replace") and x.get("args") and
+            _is_local(x["args"][0], d["id"]) for x in walk(scope))
+        if not cleared:
+            stale = stale or w
+    ctx.check(rule, "%s:batch_text_fresh" % who, stale is None, "every flush writes text built for that batch",
+              "a flush writes a buffer that is declared outside the flush and never emptied: every flush after the first "
+              "writes the rows of the earlier batches again", line_of(stale) if stale else None)
+
+
+def _is_local(n, lid):
+    while isinstance(n, dict) and (n.get("k") == "addr" or (n.get("k") == "un" and n.get("op") == "*")):
+        n = n["e"]
+    return isinstance(n, dict) and n.get("k") == "local" and n.get("id") == lid
 
 
 
